@@ -28,6 +28,15 @@ def singleton_phens(rng):
          ('qh', [P('s', ['0000', '0001', '0000'], [['eq:1'], ['eq:2'], ['eq:3']], singleton=True)])],
         [('ph', [P('one', ['0000'], [['eq:0']], singleton=True), P('s', ['0000', '0010', '0000'], [['eq:0'], ['eq:1'], ['eq:2']], singleton=True)])],
     ]
+    # the same pattern NAME in two phenomena, singleton in one only (whatever is looked up or remembered by pattern name
+    # alone confuses the two)
+    for first_single in (True, False):
+        fam.append([('ph', [P('s', ['0000', '0000', '0000'], [['eq:0'], ['eq:1'], ['eq:2']], singleton=first_single)]),
+                    ('qh', [P('s', ['0000', '0000', '0000'], [['eq:0'], ['eq:1'], ['eq:2']], singleton=not first_single)])])
+        fam.append([('ph', [P('s', ['0000', '0100', '0000'], [['eq:0'], ['eq:1'], ['eq:2']], singleton=first_single),
+                            P('t', ['0000', '0000'], [['eq:1'], ['eq:2']])]),
+                    ('qh', [P('t', ['0000', '0000', '0000'], [['eq:0'], ['eq:1'], ['eq:2']], singleton=True),
+                            P('s', ['0000', '0000'], [['eq:0'], ['eq:3']], singleton=not first_single)])])
     # names that coincide once (phenomenon, pattern) are joined with a separator: ('a','b_c') vs ('a_b','c')
     for sep in ('_', '-', '.'):
         fam.append([('a', [P(f'b{sep}c', ['0000', '0000', '0000'], [['eq:0'], ['eq:1'], ['eq:2']], singleton=True)]),
